@@ -314,32 +314,33 @@ Record query := Query {
   q_method : method;
   q_path : list string;         (* interpolator.<a>.<b> ... *)
   q_value : tree float;         (* == value (TF or TI) *)
-  q_lin : lin_table;
-  q_spl : spl_table;
-  q_expect : outcome float      (* what the implementation returned *)
+  q_expect : nat                (* index (in the series' table of outcomes) of what the implementation returned *)
 }.
 
 Definition permute {A} (l : list A) (perm : list nat) : option (list A) :=
   all_some (map (nth_error l) perm).
 
-Definition check_query (insts : list (tree float)) (qu : query) : bool :=
-  match permute insts (q_perm qu) with
-  | Some l =>
-      outcome_eqb (interp_at_F assigns_final (q_method qu) (q_lin qu) (q_spl qu) l (q_path qu) (q_value qu))
-                  (q_expect qu)
-  | None => false
+Definition check_query (insts : list (tree float)) (lt : lin_table) (st : spl_table)
+           (outs : list (outcome float)) (qu : query) : bool :=
+  match permute insts (q_perm qu), nth_error outs (q_expect qu) with
+  | Some l, Some e =>
+      outcome_eqb (interp_at_F assigns_final (q_method qu) lt st l (q_path qu) (q_value qu)) e
+  | _, _ => false
   end.
 
 Definition Qclose (a b tol : Q) : bool := Qle_bool (Qabs (a - b)) (tol * (1 + Qabs a + Qabs b)).
 
 Inductive case :=
-| CSeries (insts : list (tree float)) (qs : list query)
+  (* a series, the scipy oracle tables of all its queries, the distinct outcomes the implementation
+     produced, and the queries (supplied order, method, path, value, index of the outcome) *)
+| CSeries (insts : list (tree float)) (lt : lin_table) (st : spl_table)
+          (outs : list (outcome float)) (qs : list query)
   (* exact least squares against scipy.stats.linregress + the code's formula (labelled tolerance) *)
 | CLinreg (xs ys : list Q) (v : Q) (result : option Q) (tol : Q).
 
 Definition check_case (c : case) : bool :=
   match c with
-  | CSeries insts qs => forallb (check_query insts) qs
+  | CSeries insts lt st outs qs => forallb (check_query insts lt st outs) qs
   | CLinreg xs ys v result tol =>
       match linreg_Q xs ys v, result with
       | Some a, Some b => Qclose a b tol
@@ -348,10 +349,10 @@ Definition check_case (c : case) : bool :=
       end
   end.
 
-(* index of the first failing query of a series (for replays) *)
+(* indices of the failing queries of a series (for replays) *)
 Definition failing_queries (c : case) : list nat :=
   match c with
-  | CSeries insts qs =>
-      map fst (filter (fun iq => negb (check_query insts (snd iq))) (combine (seq 0 (List.length qs)) qs))
+  | CSeries insts lt st outs qs =>
+      map fst (filter (fun iq => negb (check_query insts lt st outs (snd iq))) (combine (seq 0 (List.length qs)) qs))
   | _ => []
   end.
